@@ -430,6 +430,11 @@ def registry():
                         "cache; same load outcome, termination, fault, registers, output and exit code; a text whose uncached run "
                         "performs a word-crossing access must be rejected with the cache on.")
     reg["C03"].components_real = reg["C03"].components_real + LIFE_REAL[:3]
+    reg["C07"].batches += [L.TextPairs("asm-cycles", "cycles", 4000, 70000)]
+    reg["C07"].rule += (" lifesim batch asm-cycles: generated assembler texts through the real assembler into a simulation without caches "
+                        "and one with a data and/or instruction cache (same mode): at the end the cycle counter with caches equals the one "
+                        "without plus the counted misses times the configured penalties (nothing is charged while a program is loaded).")
+    reg["C07"].components_real = reg["C07"].components_real + LIFE_REAL[:3]
     reg["C10"].batches += [M.InstructionCacheWalks("icache-policy-walk", 20000, 300000)]
     reg["C10"].rule += (" memsim batch icache-policy-walk: the same spy-driven policy model on the instruction-cache system (fetch streams, "
                         "reloads, reset() - a fresh policy state is expected afterwards), in a third of the runs on the cache system the "
